@@ -21,7 +21,7 @@ RULE = ('Runs are (a) query histories on real thermodynamics objects (Al-Zr bina
         '(b) HashTable machines: 5-40 ops from {enableCaching, setHashSensitivity(1..6), add, retrieve, clearCache} with (x,T) clusters straddling rounding boundaries; '
         '(c) diffusion runs with useCache(False) vs cache on at precision 8. Non-trivial = at least 5 compared queries (a), 5 retrieves (b), 10 steps (c); distinct = distinct record digest; '
         'signature = (kind, database, methods used, cache drops, batch).')
-ASSUMPTIONS = ['Diffusivities (m2/s) are compared purely relatively: 1e-6 of the largest matrix entry.', 'Warm vs fresh tolerance: 1e-7 relative (energy-like results: 1e-6 relative + 1e-4 J/mol) (+1e-6 J/mol absolute on energies, 1e-10 on compositions); both objects are built from the same database with the same sampling densities.',
+ASSUMPTIONS = ['Driving force by the curvature method: 3e-5 relative (a warm-started equilibrium is converged to the solver tolerance only; the quadratic expansion amplifies the residual: observed 3e-6 between a warm call and its own repetitions, which converge to the cold value).', 'Diffusivities (m2/s) are compared purely relatively: 1e-6 of the largest matrix entry.', 'Warm vs fresh tolerance: 1e-7 relative (energy-like results: 1e-6 relative + 1e-4 J/mol) (+1e-6 J/mol absolute on energies, 1e-10 on compositions); both objects are built from the same database with the same sampling densities.',
                'Hash sensitivities 1..9 are generated (reference keys are exact integers).',
                'Diffusion in-situ comparison: cache off vs cache on at precision 6, agreement 1e-5 relative (nodes closer than 1e-6 may share a key by design).']
 COMPONENTS = {'real': ['kawin.thermo.BinaryThermodynamics / MulticomponentThermodynamics / GeneralThermodynamics + pycalphad', 'kawin.thermo.LocalEquilibrium', 'kawin.diffusion.DiffusionParameters.HashTable', 'kawin.diffusion.SinglePhase (in situ)'],
@@ -312,7 +312,8 @@ def run_queries(rec, F, cnt, sig):
             comp_b = np.atleast_2d(np.asarray(res_w[1], dtype=float))[0] if db == 'nicral' else np.atleast_1d(np.asarray(res_w[1], dtype=float))[0]
             fw = np.concatenate(([dg_b], np.ravel(comp_b)))
         ctx = dict(query=q, method=rec['method'] if q in ('df', 'growth', 'imp') else 'n/a', ordered=bool(ordered), warm_start=bool(had_cache), large_jump=bool(big_jump), batch=bool(op.get('batch', False)))
-        if not agree(fw, ff, energy_like, diffusivity=q in ('interdiff', 'tracer')):
+        curv_rtol = 3e-5 if (q == 'df' and rec['method'] == 'curvature') else 1e-7
+        if not agree(fw, ff, energy_like, rtol=curv_rtol, diffusivity=q in ('interdiff', 'tracer')):
             dmax = None if fw is None or ff is None or fw.shape != ff.shape else float(np.max(np.abs(fw - ff)))
             ctx['small_offset'] = bool(dmax is not None and q == 'df' and dmax <= 2.0 * float(getattr(warm, 'gOffset', 1.0)) + 1e-6)
             F.add('C09.warm_vs_fresh', f'query {k} ({q}, method {rec["method"]}, x={op.get("x")}, T={op.get("T")}): warm object returned {None if fw is None else fw.tolist()[:6]}, a fresh twin {None if ff is None else ff.tolist()[:6]} (max |diff| {dmax})', **ctx)
@@ -321,7 +322,7 @@ def run_queries(rec, F, cnt, sig):
             res_w2, _ = do_query(warm, opq, db)
             f2 = flat(res_w2) if not isinstance(res_w2, str) else None
             f1 = flat(res_w)
-            if not isinstance(res_w2, str) and not agree(f1, f2, energy_like, diffusivity=q in ('interdiff', 'tracer')):
+            if not isinstance(res_w2, str) and not agree(f1, f2, energy_like, rtol=curv_rtol, diffusivity=q in ('interdiff', 'tracer')):
                 rctx = {kk: vv for kk, vv in ctx.items() if kk != 'small_offset'}
                 rctx['warm_start'] = bool(had_cache or not op.get('rc', False))      # at least one of the two calls started from cached sets
                 F.add('C09.repeat', f'query {k} ({q}, method {rec["method"]}): repeating the call immediately gives {None if f2 is None else f2.tolist()[:6]} instead of {None if f1 is None else f1.tolist()[:6]}', **rctx)
